@@ -371,6 +371,7 @@ func join(a, b context, node parse.Node, nodeName string) context {
 	}
 
 	// A name is open, or was split, after the branch node if it is in any branch.
+	a.foreign = a.foreign || b.foreign
 	a.nameOpen = a.nameOpen || b.nameOpen
 	a.tagNameOpen = a.tagNameOpen || b.tagNameOpen
 	if a.endTagOpen != b.endTagOpen {
@@ -871,7 +872,7 @@ func mangle(c context, templateName string) string {
 	// The mangled name for the default context is the input templateName. The default
 	// context includes the content of all elements in which actions are sanitized like in
 	// a context without element.
-	if c.state == stateText && !c.element.split {
+	if c.state == stateText && !c.element.split && !c.foreign {
 		plain := true
 		for _, name := range append([]string{c.element.name}, c.element.names...) {
 			if name == "" {
@@ -915,6 +916,9 @@ func mangle(c context, templateName string) string {
 	}
 	if c.endTagOpen != "" {
 		s += "_endTagOpen(" + c.endTagOpen + ")"
+	}
+	if c.foreign {
+		s += "_foreign"
 	}
 	if c.nameOpen {
 		s += "_nameOpen"
@@ -1363,6 +1367,27 @@ func (e *escaper) escapeText(c context, n *parse.TextNode) context {
 		}
 		c1, nread := contextAfterText(c, s[i:])
 		i1 := i + nread
+		if c1.state != stateError {
+			// (The transition functions build their results from scratch.)
+			c1.foreign = c.foreign
+			if c.state == stateText && c1.state == stateTag {
+				// A tag has begun: s[:i1] ends with its name.
+				if lt := bytes.LastIndexByte(s[i:i1], '<'); lt >= 0 {
+					switch name := asciiLower(s[i+lt+1 : i1]); name {
+					case "svg", "math":
+						c1.foreign = true
+					case "/svg", "/math":
+						c1.foreign = false
+					}
+				}
+			}
+			if c.foreign && c.state == stateSpecialElementBody && (c.element.name == "script" || c.element.name == "style") && bytes.IndexByte(s[i:i1], '<') >= 0 {
+				return context{
+					state: stateError,
+					err:   errorf(ErrBadHTML, n, 0, `"<" in the content of a %s element inside svg or math, where browsers read it as markup: %.32q`, c.element.name, s[i:i1]),
+				}
+			}
+		}
 		sc, err := sanitizationContextForElementContent(c.element.name)
 		if c.state == stateText || err == nil && sc == sanitizationContextRCDATA {
 			end := i1
